@@ -15,14 +15,33 @@ func init() {
 	runners["C07"] = func(o *out, r *rng, th bool, rp string) { runInstTraces(o, r, th, "C07") }
 }
 
+type instOpts struct {
+	finale bool // end with a DECIDE exchange so that the subject reports a decision
+	skew   bool // large powers plus dust members with zero scaled power
+	supp   func(cur gpbft.PowerEntries) gpbft.SupplementalData
+}
+
 // one event trace of a single real participant; returns the driver
 func genInstTrace(r *rng, viol func(clause, sig, detail string)) *instDriver {
+	return genInstTraceOpt(r, viol, instOpts{})
+}
+
+func genInstTraceOpt(r *rng, viol func(clause, sig, detail string), io instOpts) *instDriver {
 	members := 4 + r.intn(4)
 	powers := make([]int64, members)
 	for i := range powers {
 		powers[i] = int64(5 + r.intn(20))
 	}
 	powers[0] = int64(1 + r.intn(12)) // the subject: never more than a third on its own
+	if io.skew {
+		for i := range powers {
+			powers[i] *= 1 << 30
+		}
+		for k := 0; k < 1+r.intn(2); k++ {
+			powers = append(powers, int64(1+r.intn(3))) // dust: scaled power 0
+			members++
+		}
+	}
 	base := mkTipset(0, "base")
 	line := []*gpbft.TipSet{base, mkTipset(1, "m1"), mkTipset(2, "m2"), mkTipset(3, "m3"), mkTipset(4, "m4")}
 	inLen := 1 + r.intn(5)
@@ -30,6 +49,9 @@ func genInstTrace(r *rng, viol func(clause, sig, detail string)) *instDriver {
 	opts := []gpbft.Option{gpbft.WithDelta(time.Second), gpbft.WithDeltaBackOffExponent(1.5), gpbft.WithRebroadcastBackoff(1.3, 0, 700*time.Millisecond, 5*time.Second),
 		gpbft.WithMaxLookaheadRounds(uint64(r.intn(6))), gpbft.WithRebroadcastImmediatelyAfterRound(uint64(r.intn(4)))}
 	d := newInstDriver(r, members, powers[0], powers, input, opts...)
+	if io.supp != nil {
+		d.supp = io.supp(d.pt.Entries)
+	}
 	fork := &gpbft.ECChain{TipSets: []*gpbft.TipSet{base, mkTipset(1, "f1"), mkTipset(2, "f2")}}
 	values := []*gpbft.ECChain{input, fork, {TipSets: line[:1]}, {TipSets: line[:min(inLen+1, 5)]}}
 	for l := 1; l <= inLen; l++ {
@@ -203,6 +225,47 @@ func genInstTrace(r *rng, viol func(clause, sig, detail string)) *instDriver {
 				_, err := d.deliver(sender, 0, gpbft.DECIDE_PHASE, v, d.justify(round, gpbft.COMMIT_PHASE, v))
 				check(err, "decide")
 			}
+		}
+	}
+	if io.finale && d.host.decision == nil {
+		// DECIDE exchange: most puppets announce v (justified by a COMMIT quorum of some round), a few another value
+		v := input
+		if n := len(d.host.bcasts); n > 0 && !d.host.bcasts[n-1].Vote.Value.IsZero() && r.chance(70) {
+			v = d.host.bcasts[n-1].Vote.Value
+		} else if r.chance(40) {
+			v = values[r.intn(len(values))]
+		}
+		jr := d.p.Progress().Round
+		if r.chance(30) {
+			jr = uint64(r.intn(4))
+		}
+		order := shuffled(r, len(puppets))
+		for _, pi := range order {
+			if d.host.decision != nil {
+				break
+			}
+			sender := puppets[pi]
+			vv := v
+			if r.chance(12) {
+				vv = values[r.intn(len(values))]
+			}
+			if r.chance(25) && selfQueue < len(d.host.bcasts) {
+				m := d.host.bcasts[selfQueue]
+				selfQueue++
+				_, err := d.deliver(d.subject, m.Vote.Round, m.Vote.Phase, m.Vote.Value, m.Justification)
+				check(err, "self-delivery")
+				if d.host.decision != nil {
+					break
+				}
+			}
+			_, err := d.deliver(sender, 0, gpbft.DECIDE_PHASE, vv, d.justify(jr, gpbft.COMMIT_PHASE, vv))
+			check(err, "decide-finale")
+		}
+		for selfQueue < len(d.host.bcasts) && d.host.decision == nil {
+			m := d.host.bcasts[selfQueue]
+			selfQueue++
+			_, err := d.deliver(d.subject, m.Vote.Round, m.Vote.Phase, m.Vote.Value, m.Justification)
+			check(err, "self-delivery")
 		}
 	}
 	// one message per slot
